@@ -74,6 +74,7 @@ type FuncContract struct {
 	Opaque     bool
 	Pure       bool
 	Recovers   bool
+	MayPanic   bool
 	Clauses    []*Clause
 	Loops      map[int]*LoopContract
 	AllocBound *SpecExpr
@@ -361,6 +362,9 @@ func (e *Engine) parseContractLines(p *packages.Package, file string, lines []st
 			cur.Pure = true
 		case "recovers":
 			cur.Recovers = true
+		case "may_panic":
+			// panics of this function are recovered by its callers (checked structurally)
+			cur.MayPanic = true
 		case "noframe":
 			cur.NoFrame = true
 		case "modifies":
